@@ -40,6 +40,7 @@ static void on_notice(const char*, ...) {}
 // ---------------------------------------------------------------- callbacks
 static long polls = 0, target = -1; static int cancel_too = 0; static bool record_sites = false;
 static std::set<uintptr_t> sites;
+static std::set<std::string> contexts;   // distinct call stacks (library frames) under which a checkpoint polled in the counting run
 static std::string stack_at_target;      // call stack at the poll where the interrupt was requested: "<lib><offset>,..." (g = libgeos, c = libgeos_c, x = other)
 static std::string frame(void* a) {
     Dl_info di; char b[64];
@@ -54,9 +55,15 @@ static void cb(void) {
     polls++;
     // frames: [sanitizer interceptor,] cb, Interrupt::process (first frame inside libgeos), the function holding the checkpoint, its callers ...
     if (record_sites) {
-        void* bt[8]; int n = backtrace(bt, 8); int i = 0;
+        void* bt[28]; int n = backtrace(bt, 28); int i = 0;
         while (i < n && frame(bt[i])[0] != 'g') i++;
         if (i + 1 < n) { Dl_info di; if (dladdr(bt[i + 1], &di) && di.dli_fbase) sites.insert((uintptr_t)bt[i + 1] - (uintptr_t)di.dli_fbase); }
+        // polling context: the checkpoint's return address and its callers (which stage of which operation polled here)
+        if (contexts.size() < 48) {
+            std::string c;
+            for (int j = i + 1; j < n; j++) { std::string f = frame(bt[j]); if (f[0] == 'x') continue; if (!c.empty()) c += ","; c += f; }
+            contexts.insert(c);
+        }
     }
     if (polls == target) {
         void* bt[64]; int n = backtrace(bt, 64); stack_at_target.clear(); int i = 0;
@@ -261,7 +268,7 @@ int main(int argc, char** argv) {
         std::string ref = ref0.res.canon; refs.insert(ref);
         Obs ref1 = run_once(*op, A, B, p1, p2, wa, wb); refs.insert(ref1.res.canon);
         // counting callback that never requests
-        GEOS_interruptRegisterCallback(cb); sites.clear(); record_sites = true;
+        GEOS_interruptRegisterCallback(cb); sites.clear(); contexts.clear(); record_sites = true;
         auto tc0 = std::chrono::steady_clock::now();
         Obs cnt = run_once(*op, A, B, p1, p2, wa, wb); long N = cnt.inv; record_sites = false;
         long ms = (long)std::chrono::duration_cast<std::chrono::milliseconds>(std::chrono::steady_clock::now() - tc0).count();
@@ -319,6 +326,8 @@ int main(int argc, char** argv) {
         }
         printf(" sites=");
         { bool f = true; for (auto s : sites) { printf("%s%llx", f ? "" : ",", (unsigned long long)s); f = false; } }
+        printf(" ctx=");
+        { bool f = true; for (auto& c : contexts) { printf("%s%s", f ? "" : "|", c.c_str()); f = false; } }
         printf(" stacks=");
         for (size_t i = 0; i < stacks.size(); i++) printf("%s%zu:%s", i ? "|" : "", i, stacks[i].c_str());
         printf("\n"); fflush(stdout);
